@@ -7,6 +7,7 @@ import graph_checks as GC
 import gen_checks as NC
 import board_checks as BC
 import malformed_checks as MC
+import batch_checks as XC
 
 N_GAMES = dict(quick=1500, thorough=40000)
 
@@ -24,6 +25,12 @@ def games_nonabs(rng, tier):
 
 
 CHECKERS = {
+    'batch': XC.check_batch,
+    'report': XC.check_report,
+    'accuracy': XC.check_accuracy,
+    'pair-solvable': XC.check_pair_solvable,
+    'true-ties': XC.check_true_ties,
+    'generated-solves': XC.check_generated_solves,
     'malformed': MC.check_malformed,
     'board': BC.check_board,
     'params': NC.check_params,
@@ -51,3 +58,6 @@ SUITES['C08'] = [dict(name='boards-vs-roborta-game', gen=BC.gen_boards, checker=
 SUITES['C11'] = [dict(name='boards-file-proper', gen=BC.gen_boards, checker='board'), dict(name='parameter-sets-and-boards', gen=NC.gen_params, checker='params')]
 
 SUITES['C09'] = [dict(name='malformed-games', gen=MC.gen_malformed, checker='malformed')]
+
+SUITES['C12'] = [dict(name='batches', gen=XC.gen_batches, checker='batch')]
+SUITES['C16'] = [dict(name='reports', gen=XC.gen_reports, checker='report')]
